@@ -46,6 +46,9 @@ class CurvEx(Extractor):
     def on_attr(self, d, node, env):
         if d.endswith(".equilibrium"):
             return EqHandle(self.model)
+        if ".equilibrium." in d and d.split(".equilibrium.")[1].isidentifier():
+            m, nm = self.model, d.split(".equilibrium.")[1]
+            return lambda *a, _n=nm: m.call(_n, a)
         return self.ctx.sym(d)
 
     def attr_of(self, value, attr, node, env):
